@@ -153,11 +153,10 @@ def execute_c08(case):
     late_ups = [float(e[2]) - t_term[0] for e in ev
                 if e[0] == 'up' and t_term and float(e[2]) > t_term[0] + 0.05]
     if len(late_ups) >= 2:
-        return bad('C08/forked-after-terminate', '%d workers were started after '
-                   'terminate() had begun (at +%s s)%s' % (
-                       len(late_ups), ', +'.join('%.2f' % x for x in late_ups),
-                       '; terminate() then hung' if obs['hung'] else ''),
-                   nontrivial, labels)
+        # not a violation in itself (the statement bounds the time and demands
+        # that nothing survives; terminate() waits for the supervisor since
+        # 6111974 and then signals whatever it started): recorded only
+        labels.append('workers_started_after_terminate_began')
     if obs['hung']:
         if main_thread_in(obs['stacks'], ['terminate', '_terminate_pool',
                                           'del_pool', 'collect']):
